@@ -93,7 +93,10 @@ def all_specs():
     out = {}
     for p in sorted(glob.glob(os.path.join(VERIF, "props", "C*.py"))):
         pid = os.path.basename(p)[:-3]
-        out[pid] = importlib.import_module("props." + pid).SPEC
+        try:
+            out[pid] = importlib.import_module("props." + pid).SPEC
+        except Exception as e:   # a half-written spec of another property must not break this one
+            print("warning: props/%s.py does not load: %s" % (pid, e))
     return out
 
 
@@ -103,7 +106,8 @@ def write_coqproject():
     files = set()
     for pid, spec in all_specs().items():
         for t in spec.get("coq_files", [x[:-1] for x in spec["coq_targets"]]):
-            files.add(t)
+            if t.startswith("gen/") or os.path.exists(os.path.join(COQ, t)):
+                files.add(t)
     libdir = os.path.join(COQ, "Lib")
     if os.path.isdir(libdir):
         for f in os.listdir(libdir):
